@@ -28,6 +28,7 @@ let () =
       | "indices", [k; s] -> Some (show_list (compute_indices (getI k) (getL s)))
       | "offset", [i; st] -> Some (string_of_z (compute_offset (getL i) (getL st)))
       | "bshape", [x; y] -> Some (match broadcast_shape2 (getL x) (getL y) with Some l -> show_list l | None -> "nothing")
+      | "bto", [x; y] -> Some (match shape_broadcast_to (getL x) (getL y) with Some (d, _) -> show_list d | None -> "nothing")
       | "reverse", [s] -> Some (show_list (List.rev (getL s)))
       | "reshape", [s; d] -> Some (match Views.shape_reshape (getL s) (getL d) with Some l -> show_list l | None -> "nothing")
       | "normalize_axis", [x; n] -> Some (match Views.normalize_axis (getI x) (getI n) with Some v -> string_of_z v | None -> "nothing")
